@@ -25,6 +25,7 @@ type Profile struct {
 	Merge                    int
 	WideInts                 bool
 	ScanHeavy                bool
+	SparseReads              bool // only the reads C02 names: Get, GetAll, RangeScan, PrefixScan with a large limit
 	FixedScores              bool // every sorted-set member always gets the same score
 }
 
@@ -133,6 +134,23 @@ func (g *Gen) kvOp(write bool) {
 		return
 	}
 	if !g.p.ReadAfterWrite && g.wrote[g.skey("kv", b)] {
+		return
+	}
+	if g.p.SparseReads {
+		switch g.r.Intn(5) {
+		case 0, 1:
+			g.add("get %s %s", hb, g.hpick(g.p.Keys))
+		case 2:
+			g.add("getall %s", hb)
+		case 3:
+			k1, k2 := g.pick(g.p.Keys), g.pick(g.p.Keys)
+			if k1 > k2 {
+				k1, k2 = k2, k1
+			}
+			g.add("range %s %s %s", hb, hx([]byte(k1)), hx([]byte(k2)))
+		default:
+			g.add("pscan %s %s 0 1000", hb, hx([]byte(g.prefix())))
+		}
 		return
 	}
 	sel := g.r.Intn(8)
